@@ -464,7 +464,7 @@ class TokenOps(Suite):
             yield dict(case, ops=case["ops"][:i] + case["ops"][i + 1:])
 
 
-G_ALL = ["R", "R0", "Rx", "E", "E0", "Q", "O", "T", "N", "G", "Gp", "F", "B", "Oe", "Ez"]
+G_ALL = ["R", "R0", "Rx", "E", "E0", "Q", "O", "T", "N", "G", "Gp", "F", "B", "Oe", "Ez", "X", "X"]
 
 
 def suites():
